@@ -8,6 +8,33 @@ PY = '/venv/bin/python'
 
 # id -> (engine, category, technique, text, note, design_ref)
 CHECKS = {
+    'C03': ('E-enum', 'exploration',
+            'deviation-bounded exhaustive enumeration of scope states x query grammar on the real service against a brute-force oracle',
+            'States from the scope enumerator (6 base topologies: flat, nested depth 2 and 3, sharing, nested + sharing through a non-root '
+            'member, a nested sharing provider; x decoration deltas on inventories, usage, traits, aggregates) x queries (10 base requests x '
+            'every set of filter deviations: traits, in:, forbidden traits, member_of variants, in_tree, amounts, group_policy, same_subtree '
+            'subsets, a resourceless group, root_required) under a joint deviation bound (quick: (0 state deltas, <=1 query deviation), (1, 0); '
+            'thorough: (0, <=2), (1, <=1), (2 on one provider, 0)) at the microversions where semantics change; the returned set of '
+            '(allocations, mappings) must equal the set computed by an oracle transcribed from the property statement over the raw rows.',
+            'small scope (<= 7 providers, 3 trees, depth 3, 4 classes, 4 traits, 3 aggregates); oracle reading of unsuffixed in_tree follows provider-tree.rst',
+            'DESIGN.md 5.C03'),
+    'C11': ('E-seq', 'model_checking',
+            'explicit-state BFS over request histories with a reference model stepped in lock-step on every transition',
+            'From three start states all histories to depth 2 (quick) / 3-4 (thorough) over an alphabet of about 250 request kinds touching every '
+            'documented route with valid and invalid arguments at the microversions on both sides of each change; for each transition the '
+            'reference model RefPlacement (written from the api-ref) is built from the pre-state rows, stepped, and compared with status, '
+            'normalised body and post-state rows; every new state is probed with 45-70 GETs (all read views, cross-view sums).',
+            'reference model trusted after lock-step agreement; statuses the documentation does not pin are listed in the evidence',
+            'DESIGN.md 5.C11'),
+    'C19': ('E-seq', 'model_checking',
+            'explicit-state BFS to a fixpoint over request histories interleaved with the restart event',
+            'Five start databases (synchronised, never synchronised, three partially synchronised) x an alphabet of trait / resource-class '
+            'creations, idempotent re-creations, renames (1.6), deletions with valid, standard and invalid names (case, bare prefix, 255/256 '
+            'characters, trailing newline), provider usage of a custom name, and the restart event; class ids are part of the state; the search '
+            'reaches a fixpoint inside a stated id window; a reference model of the two tables decides status and post-state of every '
+            'transition and INV-std is evaluated after every restart.',
+            'custom class ids explored inside a window of K ids above 10000 (stated in evidence); pool of 3 custom names',
+            'DESIGN.md 5.C19'),
     'C17': ('E-fault', 'fault_enumeration',
             'exhaustive fault placement: one database fault of every kind at every SQL statement index of every corpus request on the real service (thorough: pairs)',
             'Corpus of 32 entries covering every write route in a state where it succeeds and, for the multi-step ones, in one where '
